@@ -40,7 +40,8 @@ using std::auto_ptr;
 using std::string;
 
 static bool ParseTrimmedInput(const char **input,
-                              JsonParserInterface *parser);
+                              JsonParserInterface *parser,
+                              unsigned int depth);
 
 /**
  * @brief Trim leading whitespace from a string.
@@ -250,8 +251,10 @@ static bool ParseNumber(const char **input, JsonParserInterface *parser) {
 
 /**
  * Starts from the first character after the  '['.
+ * @param depth the number of containers that are open, including this one.
  */
-static bool ParseArray(const char **input, JsonParserInterface *parser) {
+static bool ParseArray(const char **input, JsonParserInterface *parser,
+                       unsigned int depth) {
   if (!TrimWhitespace(input)) {
     parser->SetError("Unterminated array");
     return false;
@@ -271,7 +274,7 @@ static bool ParseArray(const char **input, JsonParserInterface *parser) {
       return false;
     }
 
-    bool result = ParseTrimmedInput(input, parser);
+    bool result = ParseTrimmedInput(input, parser, depth);
     if (!result) {
       OLA_INFO << "Invalid input";
       return false;
@@ -299,8 +302,10 @@ static bool ParseArray(const char **input, JsonParserInterface *parser) {
 
 /**
  * Starts from the first character after the  '{'.
+ * @param depth the number of containers that are open, including this one.
  */
-static bool ParseObject(const char **input, JsonParserInterface *parser) {
+static bool ParseObject(const char **input, JsonParserInterface *parser,
+                        unsigned int depth) {
   if (!TrimWhitespace(input)) {
     parser->SetError("Unterminated object");
     return false;
@@ -349,7 +354,7 @@ static bool ParseObject(const char **input, JsonParserInterface *parser) {
       return false;
     }
 
-    bool result = ParseTrimmedInput(input, parser);
+    bool result = ParseTrimmedInput(input, parser, depth);
     if (!result) {
       return false;
     }
@@ -374,8 +379,14 @@ static bool ParseObject(const char **input, JsonParserInterface *parser) {
   }
 }
 
+/**
+ * @param depth the number of containers that are currently open. The lexer is
+ * a recursive descent parser, so the nesting has to be bounded or a hostile
+ * document (say 30k of '[') exhausts the stack.
+ */
 static bool ParseTrimmedInput(const char **input,
-                             JsonParserInterface *parser) {
+                              JsonParserInterface *parser,
+                              unsigned int depth) {
   static const char TRUE_STR[] = "true";
   static const char FALSE_STR[] = "false";
   static const char NULL_STR[] = "null";
@@ -403,11 +414,19 @@ static bool ParseTrimmedInput(const char **input,
   } else if (**input == '-' || isdigit(**input)) {
     return ParseNumber(input, parser);
   } else if (**input == '[') {
+    if (depth >= JsonLexer::MAX_DEPTH) {
+      parser->SetError("Maximum nesting depth exceeded");
+      return false;
+    }
     (*input)++;
-    return ParseArray(input, parser);
+    return ParseArray(input, parser, depth + 1);
   } else if (**input == '{') {
+    if (depth >= JsonLexer::MAX_DEPTH) {
+      parser->SetError("Maximum nesting depth exceeded");
+      return false;
+    }
     (*input)++;
-    return ParseObject(input, parser);
+    return ParseObject(input, parser, depth + 1);
   }
   parser->SetError("Invalid JSON value");
   return false;
@@ -421,7 +440,7 @@ bool ParseRaw(const char *input, JsonParserInterface *parser) {
   }
 
   parser->Begin();
-  bool result = ParseTrimmedInput(&input, parser);
+  bool result = ParseTrimmedInput(&input, parser, 0);
   if (!result) {
     return false;
   }
